@@ -13,3 +13,5 @@ Definition log_write (crc : list N -> N) (rollover : N) (bufs : list (list N)) :
   write_log BLOCK_BITS crc rollover bufs.
 Definition log_read (crc : list N -> N) (file : list N) : list entry * rend :=
   read_log BLOCK_BITS crc file.
+Definition log_read_again (crc : list N -> N) (file : list N) (n : nat) : list entry * rend * list ares :=
+  read_log_again BLOCK_BITS crc file n.
